@@ -4,6 +4,7 @@
 From Coq Require Import List Arith Bool NArith.
 From Conductor Require Import Model.Loader Model.Planner Model.Exec Model.RunCase
   Proofs.ExecInv Proofs.ExecTheorems Proofs.ExecMain Proofs.PlannerInv Proofs.PlannerOrder Proofs.ComposeExec.
+From Conductor Require Import Gen.Generated Proofs.GenTie.
 Import ListNotations.
 
 (* [infl s] = operations in flight; [procs s] = (operation, COND_SLOT) of the running processes.
@@ -44,6 +45,13 @@ Theorem C04_limits_end_to_end :
     (forall o, In o (infl s) <-> (exists sl, In (EStart o sl) (trace s)) /\ forall rc, ~ In (EFinish o rc) (trace s)).
 Proof. exact cond_run_limits. Qed.
 Print Assumptions C04_limits_end_to_end.
+
+(* Tie to the source, re-checked on every run: the launch conditions of the model are the ones
+   TRANSLATED from Executor._launch_ops_if_able in the working tree (Gen/Generated.v gen_gate_open) *)
+Theorem C04_gate_is_the_sources : forall jobs s,
+  gate_open jobs s = gen_gate_open (has_ops s) (has_par s) (runpar s) (inflight s) jobs.
+Proof. exact gate_tie. Qed.
+Print Assumptions C04_gate_is_the_sources.
 
 (* non-vacuity: three independent parallelizable operations under jobs = 2 run two at a time
    with slots 0 and 1, the third reuses the slot freed first *)
